@@ -147,6 +147,8 @@ pub fn peval<E: PairEst>(out: &mut Out, t: &PTree, trace: Trace, rng: &mut Rng) 
     }
 }
 
+pub fn oracle_pairs_pub(out: &mut Out, kind: &str, data: &[(f64, f64)], accs: &[Acc]) { oracle_pairs(out, kind, data, accs) }
+
 fn oracle_pairs(out: &mut Out, kind: &str, data: &[(f64, f64)], accs: &[Acc]) {
     if !out.active || data.is_empty() { return; }
     let n = data.len();
@@ -357,9 +359,37 @@ pub fn c09(out: &mut Out, tier: &str, rng: &mut Rng) {
 
 const MM_ALPHABET: &[f64] = &[f64::NEG_INFINITY, -1.0, -0.0, 0.0, 1.0, f64::INFINITY, f64::NAN];
 
+/// like `eval_tree`, but the leaves are built through every ingestion path in turn (add, collect by value /
+/// reference, extend by value / reference / from lazily sized iterators, in one or two pieces)
+fn eval_tree_mixed<E: Est>(out: &mut Out, t: &Tree, k: &mut usize, rng: &mut Rng) -> E {
+    match t {
+        Tree::Leaf(v) => {
+            *k += 1;
+            match *k % 7 {
+                0 => { let mut e = E::new(); feed(out, &mut e, v, Trace::All, rng); e }
+                1 => E::from_iter_val(v),
+                2 => E::from_iter_ref(v),
+                3 => { let mut e = E::new(); e.extend_val(v); e }
+                4 => { let mut e = E::default(); e.extend_ref(v); e }
+                5 => { let mut e = E::new(); let h = v.len() / 2; e.extend_val(&v[..h]); e.extend_ref(&v[h..]); e }
+                _ => { let mut e = E::from_iter_lazy(&v[..v.len() / 2]); e.extend_lazy(&v[v.len() / 2..], *k); e }
+            }
+        }
+        Tree::Node(l, r) => {
+            let mut a: E = eval_tree_mixed(out, l, k, rng);
+            let b: E = eval_tree_mixed(out, r, k, rng);
+            let (pa, pb) = (words(&a), words(&b));
+            a.merge(&b);
+            out.t(E::NAME, "merge", &pa, &pb, &words(&a));
+            a
+        }
+    }
+}
+
 fn minmax_tree<E: Est>(out: &mut Out, t: &Tree, rng: &mut Rng, kind: &str) {
     if !out.next_case() { return; }
-    let e: E = eval_tree(out, t, Trace::All, rng);
+    let mut k = out.case as usize;
+    let e: E = if out.case % 2 == 0 { eval_tree(out, t, Trace::All, rng) } else { eval_tree_mixed(out, t, &mut k, rng) };
     let accs = observe(out, &e);
     let data = t.flatten();
     out.o(kind, &[&fws(&data), &fw(accs[0].val.f())]);
@@ -395,7 +425,8 @@ pub fn c14(out: &mut Out, tier: &str, rng: &mut Rng) {
             minmax_tree::<average::Min>(out, &t, rng, "min");
             minmax_tree::<average::Max>(out, &t, rng, "max");
         }
-        // from_value(v0) behaves as an estimator that has already seen v0
+        // from_value(v0) behaves as an estimator that has already seen v0 (every non-NaN value of the alphabet in turn)
+        if v.len() > 1 { let i = rng.below(MM_ALPHABET.len() - 1); v[0] = MM_ALPHABET[i]; }
         if !v[0].is_nan() && out.next_case() {
             let mut a = average::Min::from_value(v[0]);
             out.t("Min", "from_value", "", &fw(v[0]), &words(&a));
